@@ -17,6 +17,18 @@
 //!      duplicating or swapping two different item lines breaks it.
 //! Each line is also parsed alone with `PlistEntry::from_bytes` and compared
 //! with the entry (or error kind) the generator knows it must give.
+//!
+//! Workloads: (A) the command table cell by cell, (B) random documents of
+//! 0-12 lines, (C) short lines in every position, (D) long lines and block
+//! alignment - blank-only lines of 1-400 (and up to 65537) blanks, names and
+//! arguments of 60-1000 bytes behind 0-200 blanks, placed so that they start
+//! at or next to a multiple of 16 ... 65536 bytes from the start of the
+//! document, (E) large documents (13-600 lines, a few of 128 KiB - 2 MiB).
+//! The table has a "special" class for names and arguments: a dictionary of
+//! prefixes that tools treat specially (byte order marks, "./", "#", quotes,
+//! "%D/", "${..}") in front of command-like text, and of suffixes (backslash,
+//! "/", CR).  Such a line does not BEGIN with '@' and is a file holding all
+//! its bytes.
 
 use crate::fw::{show, CaseResult, Cx, Ev};
 use crate::gen::plist::{self as gp, ErrKind, Layout, Line, Phys, Want};
@@ -269,7 +281,37 @@ fn build_case(r: &mut Rng, lines: Vec<Line>, lay: Layout) -> DocCase {
 fn describe(tag: &str, c: &DocCase) -> String {
     let n = c.lines.len();
     let bad = c.lines.iter().filter(|l| l.err().is_some()).count();
+    if c.doc.len() > 6000 {
+        // large documents: the replay file regenerates the case from its
+        // index, the description only has to identify it
+        return format!(
+            "{tag}: {n} line(s), {bad} faulty, document of {} bytes (fingerprint {:016x}) beginning {:?} and ending {:?}",
+            c.doc.len(),
+            hash_strs(&[&c.doc]),
+            Q(&c.doc[..1500]),
+            Q(&c.doc[c.doc.len() - 400..])
+        );
+    }
     format!("{tag}: {n} line(s), {bad} faulty, document {:?}", Q(&c.doc))
+}
+
+fn run_class(n: usize) -> &'static str {
+    match n {
+        0 => "0",
+        1..=15 => "1-15",
+        16..=63 => "16-63",
+        64..=127 => "64-127",
+        128..=255 => "128-255",
+        256..=1023 => "256-1023",
+        1024..=4095 => "1024-4095",
+        4096..=65535 => "4096-65535",
+        65536..=1048575 => "64Ki-1Mi",
+        _ => "1Mi+",
+    }
+}
+
+fn leading_blanks(b: &[u8]) -> usize {
+    b.iter().take_while(|&&c| gp::is_blank(c)).count()
 }
 
 /// The five list views plus files / install / uninstall of a `Plist`,
@@ -308,7 +350,24 @@ fn check_doc(ev: &mut Ev, c: &DocCase) -> CaseResult {
     }
     let blanks = c.lay.phys.iter().filter(|p| matches!(p, Phys::Blank(_))).count();
     let padded = c.lay.phys.iter().filter(|p| matches!(p, Phys::Blank(b) if !b.is_empty())).count();
-    ev.count(&format!("doc/lines/{}", if n == 0 { "0" } else if n <= 3 { "1-3" } else if n <= 8 { "4-8" } else { "9-12" }));
+    ev.count(&format!(
+        "doc/lines/{}",
+        match n {
+            0 => "0",
+            1..=3 => "1-3",
+            4..=8 => "4-8",
+            9..=12 => "9-12",
+            13..=99 => "13-99",
+            _ => "100+",
+        }
+    ));
+    let longest_blank = c.lay.phys.iter().map(|p| if let Phys::Blank(b) = p { b.len() } else { 0 }).max().unwrap_or(0);
+    let longest_item = c.lines.iter().map(|l| l.bytes.len()).max().unwrap_or(0);
+    let longest_lead = c.lines.iter().map(|l| leading_blanks(&l.bytes)).max().unwrap_or(0);
+    ev.count(&format!("doc/longest-blank-only-line/{}", run_class(longest_blank)));
+    ev.count(&format!("doc/longest-entry-line/{}", run_class(longest_item)));
+    ev.count(&format!("doc/most-leading-blanks/{}", run_class(longest_lead)));
+    ev.count(&format!("doc/bytes/{}", run_class(c.doc.len())));
     ev.count(if blanks == 0 { "doc/blank-lines/none" } else if padded > 0 { "doc/blank-lines/padded" } else { "doc/blank-lines/empty-only" });
     ev.count(&format!("doc/last-line/{nl}"));
 
@@ -492,6 +551,17 @@ pub fn run(cx: &mut Cx) {
     for k in ["meta/preserved", "meta/broken", "doc/faulty/none", "doc/faulty/one", "doc/faulty/several"] {
         cx.ev.require(k);
     }
+    for k in ["16-63", "64-127", "128-255", "256-1023"] {
+        cx.ev.require(&format!("doc/longest-blank-only-line/{k}"));
+        cx.ev.require(&format!("doc/longest-entry-line/{k}"));
+    }
+    for k in ["16-63", "64-127", "128-255"] {
+        cx.ev.require(&format!("doc/most-leading-blanks/{k}"));
+    }
+    for a in [16, 32, 64] {
+        cx.ev.require(&format!("aligned/block/{a}"));
+    }
+    cx.ev.require("doc/lines/13-99");
     let (shard, nshards) = (cx.shard as usize, cx.nshards as usize);
 
     // A. the command table, cell by cell.
@@ -575,5 +645,47 @@ pub fn run(cx: &mut Cx) {
         }
         let c = build_case(&mut r, lines, lay);
         cx.check(|| describe(&format!("short line in position '{pos}'"), &c), |ev| check_doc(ev, &c));
+    }
+    // D. long lines and block alignment: 1-3 stress lines (blank-only lines
+    //    of 1-400 and more blanks, names and arguments of 60-1000 bytes behind
+    //    0-200 blanks, a single byte in a run of blanks, commands whose
+    //    argument is blanks only) that start at, or next to, a multiple of
+    //    16 ... 65536 bytes from the start of the document.
+    let cap = cx.pick_tier(600usize, 70_000, 70_000, 70_000);
+    let n = cx.per_shard(48, 3_000, 48_000, 400_000);
+    let mut r = cx.stream("aligned");
+    for _ in 0..n {
+        let (lines, lay, used) = gp::aligned_document(&mut r, cap);
+        let c = build_case(&mut r, lines, lay);
+        cx.check(
+            || describe(&format!("stress lines at multiples of {used:?} bytes"), &c),
+            |ev| {
+                for a in &used {
+                    ev.count(&format!("aligned/block/{a}"));
+                }
+                check_doc(ev, &c)
+            },
+        );
+    }
+
+    // E. large documents: tens to hundreds of lines.
+    let (lo, hi) = cx.pick_tier((13usize, 40usize), (13, 300), (13, 600), (13, 800));
+    let n = cx.per_shard(8, 200, 1_600, 12_000);
+    let mut r = cx.stream("large");
+    for _ in 0..n {
+        let nlines = if r.chance(1, 2) { r.range(lo, hi.min(99)) } else { r.range(lo, hi) };
+        let (lines, lay) = gp::large_document(&mut r, nlines, cap);
+        let c = build_case(&mut r, lines, lay);
+        cx.check(|| describe("large document", &c), |ev| check_doc(ev, &c));
+    }
+    //    ... and a few of 128 KiB to 2 MiB (very many lines / very long lines).
+    let (lo, hi) = cx.pick_tier((0usize, 0usize), (100_000, 200_000), (128 << 10, 2 << 20), (128 << 10, 4 << 20));
+    let n = cx.per_shard(0, 16, 16, 96);
+    let mut r = cx.stream("huge");
+    for _ in 0..n {
+        let target = r.range(lo, hi);
+        let (lines, lay) = gp::huge_document(&mut r, target);
+        let c = build_case(&mut r, lines, lay);
+        cx.check(|| describe("huge document", &c), |ev| check_doc(ev, &c));
     }
 }
